@@ -23,26 +23,25 @@ theorem IndexInv.transfer {s s' : State} (h : IndexInv s)
   · rw [h5, h6]; exact h.rbe_sound
   · rw [h5, h6]; exact h.rbe_compl
 
-theorem Implied.mono {s s' : State} {a : Addr} {c : Claim}
+theorem Implied.mono {s s' : State} {a : Addr} {c : Claim} {ths : List Thr}
     (he : ∀ e ws, s.entities.get e = some ws → ∃ ws', s'.entities.get e = some ws')
-    (hn : s'.nodes = s.nodes) (hr : s'.runtimes = s.runtimes) (h : Implied s a c) : Implied s' a c := by
+    (hn : s'.nodes = s.nodes) (hr : s'.runtimes = s.runtimes) (h : Implied s a ths c) : Implied s' a ths c := by
   cases c with
   | entity =>
-    obtain ⟨e, ws, ha, hw⟩ := h
+    obtain ⟨e, ws, ha, hw, ht⟩ := h
     obtain ⟨ws', hw'⟩ := he e ws hw
-    exact ⟨e, ws', ha, hw'⟩
+    exact ⟨e, ws', ha, hw', ht⟩
   | node id => simpa [Implied, hn] using h
   | runtime r => simpa [Implied, hr] using h
 
 /-! ### entities -/
 
-/-- The state after a successful `regEntity`. -/
-def regEntityOk (s : State) (se : SignedEntity) : State :=
-  { s with claims := s.claims.set (.ent se.id, .entity) (), entities := s.entities.set se.id se.nodes }
-
-theorem regEntity_spec (s : State) (t : Key) (se : SignedEntity) :
-    (regEntity s t se).1 = s ∨
-    (verifyEntityArgs se = none ∧ se.signer = t ∧ regEntity s t se = (regEntityOk s se, .ok)) := by
+/-- `gen = false`: an ordinary transaction. -/
+theorem regEntity_spec (gen : Bool) (s : State) (t : Key) (se : SignedEntity) :
+    (regEntity gen s t se).1 = s ∨
+    (verifyEntityArgs se = none ∧ (gen = false → se.signer = t) ∧
+      canAddClaim s s.claims (.ent se.id) .entity [Thr.entity] = true ∧
+      regEntity gen s t se = (regEntityOk s se, .ok)) := by
   unfold regEntity
   split
   · exact Or.inl rfl
@@ -50,41 +49,50 @@ theorem regEntity_spec (s : State) (t : Key) (se : SignedEntity) :
     split
     · exact Or.inl rfl
     · rename_i ht
-      exact Or.inr ⟨hv, by simpa using ht, rfl⟩
+      split
+      · exact Or.inl rfl
+      · rename_i hs
+        refine Or.inr ⟨hv, ?_, by simpa using hs, rfl⟩
+        intro hg; subst hg
+        simpa using ht
 
 theorem regEntityOk_inv (s : State) (se : SignedEntity) (h : Inv s) : Inv (regEntityOk s se) := by
   refine { toIndexInv := h.toIndexInv.transfer rfl rfl rfl rfl rfl rfl, cl_sound := ?_, cl_compl := ?_,
            st_nodes := h.st_nodes, nodes_nodup := h.nodes_nodup }
-  · intro a c hc
+  · intro a c ths hc
     simp only [regEntityOk, Map.get_set] at hc
     by_cases hp : (Addr.ent se.id, Claim.entity) = (a, c)
     · cases hp
-      exact ⟨se.id, se.nodes, rfl, by simp [regEntityOk, Map.get_set]⟩
+      simp only [if_true, Option.some.injEq] at hc
+      exact ⟨se.id, se.nodes, rfl, by simp [regEntityOk, Map.get_set], hc.symm⟩
     · simp only [hp, if_false] at hc
-      refine Implied.mono (s := s) ?_ rfl rfl (h.cl_sound a c hc)
+      refine Implied.mono (s := s) ?_ rfl rfl (h.cl_sound a c ths hc)
       intro e ws hw
       simp only [regEntityOk, Map.get_set]
       by_cases he : se.id = e
       · exact ⟨se.nodes, by simp [he]⟩
       · exact ⟨ws, by simp [he, hw]⟩
-  · intro a c hi
+  · intro a c ths hi
     simp only [regEntityOk, Map.get_set]
     by_cases hp : (Addr.ent se.id, Claim.entity) = (a, c)
-    · simp [hp]
+    · cases hp
+      obtain ⟨_, _, _, _, ht⟩ := hi
+      simp [ht]
     · simp only [hp, if_false]
       apply h.cl_compl
       cases c with
       | entity =>
-        obtain ⟨e, ws, ha, hw⟩ := hi
+        obtain ⟨e, ws, ha, hw, ht⟩ := hi
         simp only [regEntityOk, Map.get_set] at hw
         by_cases he : se.id = e
         · subst he; subst ha; exact absurd rfl hp
-        · simp only [he, if_false] at hw; exact ⟨e, ws, ha, hw⟩
+        · simp only [he, if_false] at hw; exact ⟨e, ws, ha, hw, ht⟩
       | node id => exact hi
       | runtime r => exact hi
 
-theorem regEntity_inv (s : State) (t : Key) (se : SignedEntity) (h : Inv s) : Inv (regEntity s t se).1 := by
-  rcases regEntity_spec s t se with e | ⟨_, _, e⟩
+theorem regEntity_inv (gen : Bool) (s : State) (t : Key) (se : SignedEntity) (h : Inv s) :
+    Inv (regEntity gen s t se).1 := by
+  rcases regEntity_spec gen s t se with e | ⟨_, _, _, e⟩
   · rw [e]; exact h
   · rw [e]; exact regEntityOk_inv s se h
 
@@ -129,33 +137,33 @@ theorem deregEntity_spec (s : State) (t : Key) (h : Inv s) :
       · exact Or.inl rfl
       · rename_i ws hws
         have hclaim : s.claims.has (Addr.ent t, Claim.entity) = true :=
-          get_unit.2 (h.cl_compl _ _ ⟨t, ws, rfl, hws⟩)
+          has_eq_true.2 ⟨_, h.cl_compl _ _ _ ⟨t, ws, rfl, hws, rfl⟩⟩
         simp only [hclaim, if_true]
         exact Or.inr ⟨by simpa using h1, by simpa using h2, ⟨ws, hws⟩, rfl⟩
 
 theorem deregEntityOk_inv (s : State) (t : Key) (h : Inv s) : Inv (deregEntityOk s t) := by
   refine { toIndexInv := h.toIndexInv.transfer rfl rfl rfl rfl rfl rfl, cl_sound := ?_, cl_compl := ?_,
            st_nodes := h.st_nodes, nodes_nodup := h.nodes_nodup }
-  · intro a c hc
+  · intro a c ths hc
     simp only [deregEntityOk, Map.get_del] at hc
     by_cases hp : (Addr.ent t, Claim.entity) = (a, c)
     · simp [hp] at hc
     · simp only [hp, if_false] at hc
-      have hi := h.cl_sound a c hc
+      have hi := h.cl_sound a c ths hc
       cases c with
       | entity =>
-        obtain ⟨e, ws', ha, hw⟩ := hi
-        refine ⟨e, ws', ha, ?_⟩
+        obtain ⟨e, ws', ha, hw, ht⟩ := hi
+        refine ⟨e, ws', ha, ?_, ht⟩
         simp only [deregEntityOk, Map.get_del]
         have : ¬ t = e := by intro he; subst he; subst ha; exact hp rfl
         simp [this, hw]
       | node id => exact hi
       | runtime r => exact hi
-  · intro a c hi
+  · intro a c ths hi
     simp only [deregEntityOk, Map.get_del]
     cases c with
     | entity =>
-      obtain ⟨e, ws', ha, hw⟩ := hi
+      obtain ⟨e, ws', ha, hw, ht⟩ := hi
       simp only [deregEntityOk, Map.get_del] at hw
       by_cases he : t = e
       · simp [he] at hw
@@ -163,15 +171,15 @@ theorem deregEntityOk_inv (s : State) (t : Key) (h : Inv s) : Inv (deregEntityOk
         have hp : ¬ (Addr.ent t, Claim.entity) = (a, Claim.entity) := by
           intro hh; subst ha; cases hh; exact he rfl
         simp only [hp, if_false]
-        exact h.cl_compl a .entity ⟨e, ws', ha, hw⟩
+        exact h.cl_compl a .entity ths ⟨e, ws', ha, hw, ht⟩
     | node id =>
       have hp : ¬ (Addr.ent t, Claim.entity) = (a, Claim.node id) := by intro hh; cases hh
       simp only [hp, if_false]
-      exact h.cl_compl a (.node id) hi
+      exact h.cl_compl a (.node id) ths hi
     | runtime r =>
       have hp : ¬ (Addr.ent t, Claim.entity) = (a, Claim.runtime r) := by intro hh; cases hh
       simp only [hp, if_false]
-      exact h.cl_compl a (.runtime r) hi
+      exact h.cl_compl a (.runtime r) ths hi
 
 theorem deregEntity_inv (s : State) (t : Key) (h : Inv s) : Inv (deregEntity s t).1 := by
   rcases deregEntity_spec s t h with e | ⟨_, _, _, e⟩
@@ -180,31 +188,46 @@ theorem deregEntity_inv (s : State) (t : Key) (h : Inv s) : Inv (deregEntity s t
 
 /-! ### runtimes -/
 
-theorem regRuntime_spec (s : State) (c : Addr) (rt : Runtime) :
-    (regRuntime s c rt).1 = s ∨
-    ∃ addr, rt.stakingAddr = some addr ∧ (runtimeToCheck s rt).stakingAddr = some c ∧
-      verifyRuntimeUpdate (s.runtimes.get rt.id) rt = none ∧
-      regRuntime s c rt = (regRuntimeOk s rt addr, .ok) := by
+theorem callerCheck_none {s : State} {c : Addr} {rt : Runtime} (h : callerCheck s c rt = none) :
+    (runtimeToCheck s rt).stakingAddr = some c := by
+  unfold callerCheck at h
+  split at h
+  · cases h
+  · rename_i expected hexp
+    split at h
+    · cases h
+    · rename_i hc
+      have : c = expected := by simpa using hc
+      rw [this]; exact hexp
+
+theorem regRuntime_spec (gen : Bool) (s : State) (c : Addr) (rt : Runtime) :
+    (regRuntime gen s c rt).1 = s ∨
+    (verifyRuntimeUpdate (s.runtimes.get rt.id) rt = none ∧
+     (gen = false → (runtimeToCheck s rt).stakingAddr = some c) ∧
+     ((rt.stakingAddr = none ∧ regRuntime gen s c rt = (regRuntimeNoClaim s rt, .ok)) ∨
+      (∃ addr, rt.stakingAddr = some addr ∧ canAddClaim s s.claims addr (.runtime rt.id) (rtThr rt) = true ∧
+        regRuntime gen s c rt = (regRuntimeOk s rt addr, .ok)))) := by
   unfold regRuntime
   split
   · exact Or.inl rfl
   · split
     · exact Or.inl rfl
-    · split
+    · rename_i hv
+      split
       · exact Or.inl rfl
-      · rename_i hv
+      · rename_i hcc
+        have hcaller : gen = false → (runtimeToCheck s rt).stakingAddr = some c := by
+          intro hg; subst hg
+          simp only [Bool.false_eq_true, if_false] at hcc
+          exact callerCheck_none hcc
         split
-        · exact Or.inl rfl
-        · rename_i expected hexp
+        · rename_i hnone
+          exact Or.inr ⟨hv, hcaller, Or.inl ⟨hnone, rfl⟩⟩
+        · rename_i addr haddr
           split
           · exact Or.inl rfl
-          · rename_i hc
-            split
-            · exact Or.inl rfl
-            · rename_i addr haddr
-              have hc' : c = expected := by simpa using hc
-              subst hc'
-              exact Or.inr ⟨addr, haddr, hexp, hv, rfl⟩
+          · rename_i hs
+            exact Or.inr ⟨hv, hcaller, Or.inr ⟨addr, haddr, by simpa using hs, rfl⟩⟩
 
 theorem stakingAddr_susp (rt : Runtime) (b : Bool) : ({ rt with suspended := b } : Runtime).stakingAddr = rt.stakingAddr := by
   cases hg : rt.gov <;> simp [Runtime.stakingAddr, hg]
@@ -212,6 +235,7 @@ theorem stakingAddr_susp (rt : Runtime) (b : Bool) : ({ rt with suspended := b }
 theorem regRuntimeOk_inv (s : State) (rt : Runtime) (addr : Addr) (ha : rt.stakingAddr = some addr) (h : Inv s) :
     Inv (regRuntimeOk s rt addr) := by
   have hsa := stakingAddr_susp rt
+  have hrt : ∀ b : Bool, rtThr { rt with suspended := b } = rtThr rt := fun _ => rfl
   cases hex : s.runtimes.get rt.id with
   | none =>
     refine { toIndexInv := ?_, cl_sound := ?_, cl_compl := ?_, st_nodes := h.st_nodes, nodes_nodup := h.nodes_nodup }
@@ -236,18 +260,18 @@ theorem regRuntimeOk_inv (s : State) (rt : Runtime) (addr : Addr) (ha : rt.staki
         simp only [regRuntimeOk, hex, Map.get_set] at hx ⊢
         have := h.rbe_compl r x
         grind
-    · intro a c hc
+    · intro a c ths hc
       simp only [regRuntimeOk, hex, Map.get_set] at hc
-      have := h.cl_sound a c
+      have := h.cl_sound a c ths
       cases c with
       | entity => simp only [Implied, regRuntimeOk] at this ⊢; grind
       | node id => simp only [Implied, regRuntimeOk] at this ⊢; grind
       | runtime r =>
         simp only [Implied, regRuntimeOk, hex, Map.get_set] at this ⊢
         grind
-    · intro a c hi
+    · intro a c ths hi
       simp only [regRuntimeOk, hex, Map.get_set]
-      have := h.cl_compl a c
+      have := h.cl_compl a c ths
       cases c with
       | entity => simp only [Implied, regRuntimeOk] at this hi ⊢; grind
       | node id => simp only [Implied, regRuntimeOk] at this hi ⊢; grind
@@ -257,8 +281,8 @@ theorem regRuntimeOk_inv (s : State) (rt : Runtime) (addr : Addr) (ha : rt.staki
   | some cur =>
     have hcid := h.rt_id rt.id cur hex
     have hcbe := h.rbe_compl rt.id cur hex
-    have hccl : ∀ oa, cur.stakingAddr = some oa → s.claims.get (oa, .runtime rt.id) = some () :=
-      fun oa hoa => h.cl_compl oa (.runtime rt.id) ⟨cur, hex, hoa⟩
+    have hccl : ∀ oa, cur.stakingAddr = some oa → s.claims.get (oa, .runtime rt.id) = some (rtThr cur) :=
+      fun oa hoa => h.cl_compl oa (.runtime rt.id) _ ⟨cur, hex, hoa, rfl⟩
     refine { toIndexInv := ?_, cl_sound := ?_, cl_compl := ?_, st_nodes := h.st_nodes, nodes_nodup := h.nodes_nodup }
     · constructor
       · exact h.node_id
@@ -287,8 +311,8 @@ theorem regRuntimeOk_inv (s : State) (rt : Runtime) (addr : Addr) (ha : rt.staki
           grind
         · simp only [regRuntimeOk, hex, hent, if_false, Map.get_set, Map.get_del] at hx ⊢
           grind
-    · intro a c hc
-      have := h.cl_sound a c
+    · intro a c ths hc
+      have := h.cl_sound a c ths
       cases hos : cur.stakingAddr with
       | none =>
         simp only [regRuntimeOk, hex, hos, Map.get_set] at hc
@@ -314,8 +338,8 @@ theorem regRuntimeOk_inv (s : State) (rt : Runtime) (addr : Addr) (ha : rt.staki
           | runtime r =>
             simp only [Implied, regRuntimeOk, hex, Map.get_set] at this ⊢
             grind
-    · intro a c hi
-      have := h.cl_compl a c
+    · intro a c ths hi
+      have := h.cl_compl a c ths
       cases hos : cur.stakingAddr with
       | none =>
         simp only [regRuntimeOk, hex, hos, Map.get_set]
@@ -341,9 +365,115 @@ theorem regRuntimeOk_inv (s : State) (rt : Runtime) (addr : Addr) (ha : rt.staki
           | runtime r =>
             simp only [Implied, regRuntimeOk, hex, Map.get_set] at this hi ⊢
             grind
-theorem regRuntime_inv (s : State) (c : Addr) (rt : Runtime) (h : Inv s) : Inv (regRuntime s c rt).1 := by
-  rcases regRuntime_spec s c rt with e | ⟨addr, ha, _, _, e⟩
+/-- Consensus-governed runtime (genesis): no claim is written, and none was there before, because the
+governance model of an existing runtime cannot change to consensus. -/
+theorem regRuntimeNoClaim_inv (s : State) (rt : Runtime) (ha : rt.stakingAddr = none)
+    (hv : verifyRuntimeUpdate (s.runtimes.get rt.id) rt = none) (h : Inv s) : Inv (regRuntimeNoClaim s rt) := by
+  have hgov : rt.gov = .consensus := by
+    cases hg : rt.gov <;> simp [Runtime.stakingAddr, hg] at ha ⊢
+  have hsa : ∀ b : Bool, ({ rt with suspended := b } : Runtime).stakingAddr = none := by
+    intro b; simp [Runtime.stakingAddr, hgov]
+  cases hex : s.runtimes.get rt.id with
+  | none =>
+    refine { toIndexInv := ?_, cl_sound := ?_, cl_compl := ?_, st_nodes := h.st_nodes, nodes_nodup := h.nodes_nodup }
+    · constructor
+      · exact h.node_id
+      · exact h.sub_nodup
+      · exact h.km_sound
+      · exact h.km_compl
+      · exact h.ca_sound
+      · exact h.ca_compl
+      · exact h.be_sound
+      · exact h.be_compl
+      · intro r x hx
+        simp only [regRuntimeNoClaim, hex, Map.get_set] at hx
+        have := h.rt_id r x
+        grind
+      · intro e r hb
+        simp only [regRuntimeNoClaim, hex, Map.get_set] at hb ⊢
+        have := h.rbe_sound e r
+        grind
+      · intro r x hx
+        simp only [regRuntimeNoClaim, hex, Map.get_set] at hx ⊢
+        have := h.rbe_compl r x
+        grind
+    · intro a c ths hc
+      have := h.cl_sound a c ths hc
+      cases c with
+      | entity => exact this
+      | node id => exact this
+      | runtime r =>
+        simp only [Implied, regRuntimeNoClaim, hex, Map.get_set] at this ⊢
+        grind
+    · intro a c ths hi
+      apply h.cl_compl a c ths
+      cases c with
+      | entity => exact hi
+      | node id => exact hi
+      | runtime r =>
+        simp only [Implied, regRuntimeNoClaim, hex, Map.get_set] at hi ⊢
+        grind
+  | some cur =>
+    have hcid := h.rt_id rt.id cur hex
+    have hcbe := h.rbe_compl rt.id cur hex
+    have hcgov : cur.gov = .consensus := by
+      simp only [verifyRuntimeUpdate, hex] at hv
+      split at hv; · cases hv
+      split at hv; · cases hv
+      rename_i _ h2
+      rw [hgov] at h2
+      cases hg : cur.gov <;> simp_all
+    have hcsa : cur.stakingAddr = none := by simp [Runtime.stakingAddr, hcgov]
+    refine { toIndexInv := ?_, cl_sound := ?_, cl_compl := ?_, st_nodes := h.st_nodes, nodes_nodup := h.nodes_nodup }
+    · constructor
+      · exact h.node_id
+      · exact h.sub_nodup
+      · exact h.km_sound
+      · exact h.km_compl
+      · exact h.ca_sound
+      · exact h.ca_compl
+      · exact h.be_sound
+      · exact h.be_compl
+      · intro r x hx
+        simp only [regRuntimeNoClaim, hex, Map.get_set] at hx
+        have := h.rt_id r x
+        grind
+      · intro e r hb
+        have := h.rbe_sound e r
+        by_cases hent : cur.entity = rt.entity
+        · simp only [regRuntimeNoClaim, hex, hent, if_true, Map.get_set] at hb ⊢
+          grind
+        · simp only [regRuntimeNoClaim, hex, hent, if_false, Map.get_set, Map.get_del] at hb ⊢
+          grind
+      · intro r x hx
+        have := h.rbe_compl r x
+        by_cases hent : cur.entity = rt.entity
+        · simp only [regRuntimeNoClaim, hex, hent, if_true, Map.get_set] at hx ⊢
+          grind
+        · simp only [regRuntimeNoClaim, hex, hent, if_false, Map.get_set, Map.get_del] at hx ⊢
+          grind
+    · intro a c ths hc
+      have := h.cl_sound a c ths hc
+      cases c with
+      | entity => exact this
+      | node id => exact this
+      | runtime r =>
+        simp only [Implied, regRuntimeNoClaim, hex, Map.get_set] at this ⊢
+        grind
+    · intro a c ths hi
+      apply h.cl_compl a c ths
+      cases c with
+      | entity => exact hi
+      | node id => exact hi
+      | runtime r =>
+        simp only [Implied, regRuntimeNoClaim, hex, Map.get_set] at hi ⊢
+        grind
+
+theorem regRuntime_inv (gen : Bool) (s : State) (c : Addr) (rt : Runtime) (h : Inv s) :
+    Inv (regRuntime gen s c rt).1 := by
+  rcases regRuntime_spec gen s c rt with e | ⟨hv, _, ⟨ha, e⟩ | ⟨addr, ha, _, e⟩⟩
   · rw [e]; exact h
+  · rw [e]; exact regRuntimeNoClaim_inv s rt ha hv h
   · rw [e]; exact regRuntimeOk_inv s rt addr ha h
 
 end OasisProofs.Registry
